@@ -25,7 +25,8 @@ def replay(chk, binary, fam, scripts, extra_scen=None, bkcap=3):
         sc = dict(scen.ALL[fam], **(extra_scen or {}))
         with open(inp, "w") as fh:
             for s in scripts:
-                fh.write(json.dumps({"scen": sc, "steps": s["steps"], "cap": 2, "bkcap": bkcap}) + "\n")
+                fh.write(json.dumps({"scen": sc, "steps": s["steps"], "cap": 2, "bkcap": bkcap,
+                                     "split": scen.MODEL12.get(fam) == "split"}) + "\n")
         rc, txt = vlib.run_test(binary, "TestVerifHsScripts", {"VERIF_IN": inp, "VERIF_OUT": out}, timeout=2400)
         if rc != 0 or not os.path.exists(out):
             raise vlib.Inconclusive("script replay harness failed (%s): %s" % (fam, txt[-2000:]))
